@@ -158,6 +158,10 @@ func placements() []placement {
 		{"when-on-augment-with-foreign-uses", "b", "urn:b", func(s string) (string, string) {
 			return "container top { leaf base { type string; } } grouping g { container gc { leaf k { type string; } } }", "augment /a:top { " + s + " uses a:g; }"
 		}, "/top/gc", false},
+		// the augment holds nothing but a uses that has a when of its own: both whens reach the nodes
+		{"when-on-augment-in-uses-around-a-uses-with-its-own-when", "b", "urn:b", func(s string) (string, string) {
+			return "grouping g { container gc { leaf k { type string; } } } grouping g2 { leaf l2 { type string; } }", "container host { uses a:g { augment gc { " + s + " uses a:g2 { when \"../k = 'x'\"; } } } }"
+		}, "/host/gc/l2", false},
 		{"when-on-uses-inside-grouping-used-from-b", "a", "urn:b", func(s string) (string, string) {
 			return "grouping inner { container gc { leaf k { type string; } } } grouping outer { container o { uses inner { " + s + " } } }", "uses a:outer;"
 		}, "/o/gc", false},
